@@ -11,7 +11,7 @@ ORACLES = [('rewind', oracle_rewind)]
 
 def run(tier: str) -> int:
     ps = [
-        profiles.systematic_profile('sys', lambda k, f: True, True, 120, 260, ORACLES,
+        profiles.systematic_profile('sys', lambda k, f: True, True, 130, 280, ORACLES,
                                     inputs=profiles.inputs_exhaustive(3, 5, cap_q=90, cap_t=700), per_tu=2),
         profiles.systematic_profile('sysact', lambda k, f: True, True, 10, 60, ORACLES, actions_mode='bool',
                                     inputs=profiles.inputs_exhaustive(3, 4, cap_q=90, cap_t=350), per_tu=2,
